@@ -109,6 +109,15 @@ func (e *Eval) Prepare(flags ...[]byte) error {
 	}
 
 	//
+	// Start from an empty program: if we're called more than once
+	// the script must be compiled afresh, not appended to the result
+	// of the previous compilation.
+	//
+	e.constants = nil
+	e.instructions = nil
+	e.functions = make(map[string]environment.UserFunction)
+
+	//
 	// Create a lexer.
 	//
 	l := lexer.New(e.Script)
